@@ -93,6 +93,10 @@ def r13_1(ctx):
             return ev['path'] == 'std::iter::Iterator::next'
         fwd = bool(nexts) and all(forward_slice_iter(q.E[e][2]) for e in nexts)
         stack_field = 'f%d' % ctx.readonly_fields()['stack']
+        if not nexts:
+            # the slice peeled from the front (`while let Some((first, rest)) = s.split_first()`) is the same walk
+            nexts = q.edges(lambda ev: ev['k'] == 'ext' and ev['path'].rsplit('::', 1)[-1] in ('split_first', 'split_last', 'first', 'last', 'pop', 'split_at'))
+            fwd = bool(nexts) and all(q.E[e][2]['path'].rsplit('::', 1)[-1] == 'split_first' for e in nexts)
         from_field = bool(nexts) and all(any(VAL[s][0] == 'sym' and VAL[s][1] == 'fld' and VAL[s][3] == stack_field for s in values.subs(q.E[e][2]['args'][0])) for e in nexts)
         out.append(inst('R13.1', name + '|registration order', fwd and from_field,
                         'the stack field is walked with a forward slice iterator' if fwd and from_field else
